@@ -109,7 +109,85 @@ func (vc *VC) findLoops() ([]*loopInfo, map[[2]int]bool) {
 	for i, li := range loops {
 		li.ordinal = i + 1
 	}
+	vc.alignLoopOrdinals(loops)
 	return loops, back
+}
+
+// rangeSubject: the package variable or named local a map-range loop iterates over ("" if none).
+func rangeSubject(li *loopInfo) string {
+	for _, in := range li.header.Instrs {
+		nx, ok := in.(*ssa.Next)
+		if !ok {
+			continue
+		}
+		rg, ok := nx.Iter.(*ssa.Range)
+		if !ok {
+			continue
+		}
+		x := rg.X
+		if u, ok := x.(*ssa.UnOp); ok && u.Op == token.MUL {
+			if g, ok := u.X.(*ssa.Global); ok {
+				return g.Name()
+			}
+			if a, ok := u.X.(*ssa.Alloc); ok && a.Comment != "" {
+				return a.Comment
+			}
+		}
+		if refs := x.Referrers(); refs != nil {
+			for _, r := range *refs {
+				if d, ok := r.(*ssa.DebugRef); ok && !d.IsAddr && d.Object() != nil {
+					return d.Object().Name()
+				}
+			}
+		}
+	}
+	return ""
+}
+
+// alignLoopOrdinals: loop clauses are keyed by the loop's ordinal in source order.  When two range loops
+// over different named collections have been swapped, the clauses of the one talk about the collection the
+// other iterates over; the two ordinals are exchanged then (a reordering of independent loops is not a change
+// of behaviour, and checking each loop against the other's invariant proves nothing either way).
+func (vc *VC) alignLoopOrdinals(loops []*loopInfo) {
+	if vc.spec == nil || len(loops) < 2 {
+		return
+	}
+	mentioned := map[int]map[string]bool{}
+	for _, c := range vc.spec.Clauses {
+		if c.Loop == 0 {
+			continue
+		}
+		if mentioned[c.Loop] == nil {
+			mentioned[c.Loop] = map[string]bool{}
+		}
+		for _, id := range goIdentRe.FindAllString(c.Text, -1) {
+			mentioned[c.Loop][id] = true
+		}
+	}
+	subj := map[*loopInfo]string{}
+	count := map[string]int{}
+	for _, li := range loops {
+		if s := rangeSubject(li); s != "" {
+			subj[li] = s
+			count[s]++
+		}
+	}
+	for i, a := range loops {
+		for _, b := range loops[i+1:] {
+			sa, sb := subj[a], subj[b]
+			if sa == "" || sb == "" || sa == sb || count[sa] != 1 || count[sb] != 1 {
+				continue
+			}
+			ma, mb := mentioned[a.ordinal], mentioned[b.ordinal]
+			if len(ma) == 0 || len(mb) == 0 {
+				continue
+			}
+			if !ma[sa] && ma[sb] && mb[sa] {
+				a.ordinal, b.ordinal = b.ordinal, a.ordinal
+				vc.note(fmt.Sprintf("the loops over %s and %s stand in the other order than the loop clauses of the contract: clauses matched by the collection they speak about", sa, sb))
+			}
+		}
+	}
 }
 
 func loopPos(li *loopInfo) token.Pos {
